@@ -18,11 +18,11 @@ EXTENDS Integers, Sequences, FiniteSets, TLC
 CONSTANTS MaxObs
 
 L0 == [obs |-> 0, rcache |-> 0, bwRecv |-> 0, bwSend |-> 0]
-Kinds == {"plainOK", "plainCancel", "plainExpire", "plainRst", "dupToken",
+Kinds == {"plainOK", "plainSepCon", "plainCancel", "plainExpire", "plainRst", "dupToken",
           "bwUpOK", "bwUpCancel", "bwUpRefused", "bwDownOK", "bwDownAbandon",
           "obsOK", "obsCancel", "obsFail", "obsSilentCancel", "obsAckedCancel",
           "pingOK", "pingCancel", "oneWay",
-          "srvReq", "srvReqNon", "srvReqNoResp", "srvBwUpAbandon", "srvBwDownAbandon",
+          "srvReq", "srvReqNon", "srvReqNoResp", "srvReqHijack", "srvBwUpAbandon", "srvBwDownAbandon",
           "tickEarly", "tickBw", "tickLate"}
 Enabled(s, k) == CASE k = "obsOK" -> s.obs < MaxObs
                    [] k = "obsCancel" -> s.obs > 0
@@ -31,7 +31,8 @@ Step(s, k) ==
   CASE k = "obsOK" -> [s EXCEPT !.obs = s.obs + 1]
     [] k = "obsCancel" -> [s EXCEPT !.obs = s.obs - 1]
     [] k = "bwDownAbandon" -> [s EXCEPT !.bwRecv = s.bwRecv + 1]
-    [] k \in {"srvReq", "srvReqNon", "srvReqNoResp"} -> [s EXCEPT !.rcache = s.rcache + 1]
+    \* (a confirmable separate response is acknowledged, and the acknowledgement is remembered for its message ID)
+    [] k \in {"srvReq", "srvReqNon", "srvReqNoResp", "srvReqHijack", "plainSepCon"} -> [s EXCEPT !.rcache = s.rcache + 1]
     [] k = "srvBwUpAbandon" -> [s EXCEPT !.bwRecv = s.bwRecv + 1, !.rcache = s.rcache + 1]
     [] k = "srvBwDownAbandon" -> [s EXCEPT !.bwSend = s.bwSend + 1, !.rcache = s.rcache + 1]
     \* (the driver lets a request run out of retransmissions by sweeping up to 9 s ahead, past the transfer timeout)
